@@ -434,9 +434,17 @@ func search(seed uint64, n int, dc string, repo string, mode string, kinds strin
 			cases = append(cases, cs{m, "gen-mut"})
 		}
 	}
+	for _, b := range bx.SencVariants() { // no randomness: the cases above stay what they were
+		cases = append(cases, cs{b, "gen"})
+	}
 	if mode == "c01" {
 		fc, _ := fileCases(hx.NewRng(seed+4321), repo, 60+n/8, hv, 2000000, nil)
 		for _, c := range fc {
+			cases = append(cases, cs{c, "file"})
+		}
+		// structured senc layouts inside moof/traf, parsed by the file decoder (TrafBox.ParseReadSenc, outside the model:
+		// search only) with unknown / known per-sample IV size; no randomness
+		for _, c := range bx.SencFiles() {
 			cases = append(cases, cs{c, "file"})
 		}
 	}
